@@ -102,7 +102,7 @@ def replay_case_file(path, pid):
     return 0
 
 
-def model_replay_validate(chk, module, cfg, name, pids, flavour="asan-ubsan", workers=16, xmx="16g", trace_module="TraceAlgo"):
+def model_replay_validate(chk, module, cfg, name, pids, flavour="asan-ubsan", workers=16, xmx="10g", trace_module="TraceAlgo"):
     """Design-level TLC run of an implementation-shaped model (its invariants must hold), every emitted state replayed into the
     real object by harness/replay, the observed results validated by TLC (contract failures -> violations, impl notes counted)."""
     import shutil
@@ -169,7 +169,7 @@ def small_scope(chk, pid, nontrivial_all, cfg=None):
     cfg = cfg or "LegalizeCases_" + chk.tier
     d = vlib.scratch(pid + "-emit")
     out = os.path.join(d, "cases.out")
-    res = vlib.tlc_ok(vlib.tlc("LegalizeCases", cfg=cfg, workers=16, stdout_path=out, timeout=9000, xmx="16g"), cfg)
+    res = vlib.tlc_ok(vlib.tlc("LegalizeCases", cfg=cfg, workers=16, stdout_path=out, timeout=9000, xmx="10g"), cfg)
     if res["violated"]:
         raise vlib.FrameworkError("LegalizeCases: contract operators inconsistent: %s" % res["violated"])
     chk.add_tlc(res, "tlc enumeration of the small legalization scope (" + cfg + ")")
